@@ -423,10 +423,13 @@ def codecPieces (b : Bytes) : List Bytes := cutBy (codecLens b.length b) b
   `armor.go`: `Write` = BaseX `encoder.Write` into a `bytes.Buffer` (never
   fails), then `spaceAndOutputBuffer`; every `s.encoded.Write` may fail and its
   error is returned at once — the word already taken out of the buffer is lost,
-  `nWords` stays incremented, and nothing is remembered (the armor stream has no
-  sticky error; in the compositions of armor62_*.go the packet stream above it
-  dies with go-codec's encoder, and `closeForwarder.Close` does not close the
-  armor stream when the packet stream's `Close` failed). -/
+  `nWords` stays incremented — and REMEMBERED (`s.err`, since fix 5ad1caa, defect
+  D13: before it nothing was remembered and a later `Close` reported success for
+  a text with a word or separator missing): every later `Write` and `Close`
+  returns it without touching the writer.  (In the compositions of armor62_*.go
+  the packet stream above it dies with go-codec's encoder as well, and
+  `closeForwarder.Close` does not close the armor stream when the packet
+  stream's `Close` failed.) -/
 
 structure FArm where
   par : Armor.Params
@@ -435,6 +438,7 @@ structure FArm where
   nWords : Nat
   ftr : Bytes
   w : Wr
+  failed : Bool := false       -- `s.err != nil`
 
 /-- `spaceAndOutputBuffer` over the faulting writer -/
 def FArm.spaceOut : (fuel : Nat) → FArm → Bool × FArm
@@ -459,17 +463,21 @@ def FArm.feed (s : FArm) (e' : Stream.EncState) : FArm :=
 
 /-- `armorEncoderStream.Write(b)`: success or the writer's error -/
 def FArm.write (s : FArm) (b : Bytes) : Bool × FArm :=
+  if s.failed then (false, s) else
   let s1 := s.feed (s.enc.write b).2.2
-  FArm.spaceOut (s1.buf.length + 1) s1
+  match FArm.spaceOut (s1.buf.length + 1) s1 with
+  | (true, s2) => (true, s2)
+  | (false, s2) => (false, { s2 with failed := true })
 
 /-- `armorEncoderStream.Close()` -/
 def FArm.close (s : FArm) : Bool × FArm :=
+  if s.failed then (false, s) else
   let s1 := s.feed s.enc.close.2
   match FArm.spaceOut (s1.buf.length + 1) s1 with
-  | (false, s2) => (false, s2)
+  | (false, s2) => (false, { s2 with failed := true })
   | (true, s2) =>
     match s2.w.write s2.buf with                 -- `lst` (possibly an empty write)
-    | (false, w') => (false, { s2 with w := w' })
+    | (false, w') => (false, { s2 with w := w', failed := true })
     | (true, w') =>
       let n := s2.nWords + 1
       let pad : Bytes :=
@@ -477,7 +485,7 @@ def FArm.close (s : FArm) : Bool × FArm :=
           (if n % s2.par.wordsPerLine = 0 then [Armor.newline] else [Armor.space])
         else []
       match w'.write (pad ++ [Armor.period, Armor.space] ++ s2.ftr ++ [Armor.period, Armor.newline]) with
-      | (ok, w'') => (ok, { s2 with nWords := n, w := w'' })
+      | (ok, w'') => (ok, { s2 with nWords := n, w := w'', failed := !ok })
 
 /-- `newArmorEncoderStream`: `header + ". "` in one write -/
 def FArm.init (par : Armor.Params) (hdr ftr : Bytes) (w : Wr) : Bool × FArm :=
